@@ -375,7 +375,7 @@ def _obs_uses_in_action(cfg, L, avar, ovar, nextvar, body, depth=4):
             if isinstance(x, ast.Name) and isinstance(x.ctx, ast.Load):
                 if x.id in targets:
                     out.append((x.id, d.node, val))
-                elif k < depth and x.id != avar:
+                elif k < depth:
                     for d2 in cfg.defs_of(d.node, x.id):
                         if d2.node in pre_S and d2.kind in ("assign", "unpack"):
                             work.append((d2, k + 1))
